@@ -32,6 +32,7 @@ def convert_pit(prog, seed, fold_bn=False, discrete_cost=False, full_cost=False,
     kw.update(extra_kwargs or {})
     pit = PIT(model, cost=cost if cost is not None else params, **kw)
     from vf import neutral
+    pit = neutral.maybe_clone(pit, seed)
     neutral.maybe_warm(pit, xs, seed)
     return model, pit, xs
 
